@@ -595,7 +595,7 @@ func c46StagingPart(t *testing.T) {
 	admin := srv.Session(t, "admin", "")
 	known := map[string]int{}
 	example := map[string]string{}
-	vh.Check(t, "staging", 220, 900, func(rt *rapid.T) {
+	vh.Check(t, "staging", 600, 1800, func(rt *rapid.T) {
 		c46StagingCase(rt, srv, admin, rec, known, example)
 	})
 	ids := make([]string, 0, len(known))
@@ -773,7 +773,8 @@ func c46StagingCase(rt *rapid.T, srv *vsql.Server, admin *vsql.Session, rec *vh.
 			}
 			if fail && len(conflictOn) > 0 {
 				// the error must be the ignore-conflict error and name a table that really is in
-				// conflict (which of several conflicting tables is reported is not specified)
+				// conflict under this variant's verdicts (which of several conflicting tables is
+				// reported is not specified)
 				named := false
 				for _, n := range names {
 					v, _, _ := c46Resolve(pats, n)
@@ -785,7 +786,8 @@ func c46StagingCase(rt *rapid.T, srv *vsql.Server, admin *vsql.Session, rec *vh.
 					}
 				}
 				if !named {
-					rt.Fatalf("%s failed as expected (conflict on %v), but the error does not report a dolt_ignore conflict on a conflicting table: %v\nsteps:\n  %s", a.sql, conflictOn, err, strings.Join(c.log, "\n  "))
+					tried[len(tried)-1] += " [state matches, but the error names no table that is in conflict under this variant: " + strings.SplitN(err.Error(), "\n", 2)[0] + "]"
+					continue
 				}
 				classes["conflict_reported"] = true
 			}
